@@ -221,9 +221,11 @@ static int geti(const char *t, ll *out) {
 int main(void) {
   char *line, *tok[16]; int i;
   static char copy[4096];
+  unsigned watchdog = getenv("C11_WATCHDOG") ? (unsigned)atoi(getenv("C11_WATCHDOG")) : 15;
   for (i = 0; i < NREG; i++) regs[i] = sraRgnCreate();
   while ((line = vh_readline())) {
     int n, d, s; ll v[8];
+    alarm(watchdog);  /* watchdog: no single library call takes that long; SIGALRM = hang */
     strncpy(copy, line, sizeof(copy) - 1); curline = copy;
     n = vh_split(line, tok, 16);
     if (n == 0 || tok[0][0] == '#') continue;
